@@ -5,7 +5,7 @@ from ..world import LINEAR, Session, is_contextual, tol_for
 
 ID = "C06"
 LEVEL = "exploration"
-QUICK_RUNS = 960
+QUICK_RUNS = 4000
 RULE = ("Each run: drawn policy combination (no TreeBandit, scale=False), a training stream cut into drawn chunks "
         "(sizes >= 1, chunks that omit arms, first chunk delivered by fit or by partial_fit); after every chunk a "
         "fresh replica is fit once on the whole prefix, stream positions are copied across, and observations and "
